@@ -14,7 +14,7 @@ import sys
 from zope.interface import Interface, implementedBy
 from zope.interface.interface import InterfaceClass
 
-NAMES = ['', 'a', 'ab', 'b', '\xe9', 'A', '\xe8', 'a\u4e2d', 'a\u4e2e']      # non-ASCII names that differ in their last UTF-8 byte only
+NAMES = ['', 'a', 'ab', 'b', '\xe9', 'A', '\xe8', 'a\u4e2d', 'a\u4e2e', '\u01ff', '\u0200']      # non-ASCII names that differ in their last UTF-8 byte only; wide characters whose byte order is not their code-point order
 MODS = ['', 'm', 'ma', 'n']
 OPS = {'lt': operator.lt, 'le': operator.le, 'gt': operator.gt, 'ge': operator.ge}
 
@@ -55,6 +55,12 @@ def universe():
     # equals (what two executions of one class statement in one module give)
     orig = IF[NAMES.index('b') * len(MODS) + MODS.index('n')]
     twin3 = InterfaceClass(orig.__name__, (Interface,), {}, __module__=orig.__module__)
+    # interfaces with interface methods live in generated classes: one level,
+    # and a second level derived from the first (both take part like any other)
+    cm1 = InterfaceClass(fresh('ab'), (Interface,), {'__interface_methods__': {'helper': lambda self: 1}},
+                         __module__=fresh('n'))
+    cm2 = type(cm1)(fresh('b'), (cm1,), {'__interface_methods__': {'helper2': lambda self: 2}},
+                         __module__=fresh('ma'))
 
     def mkcls(n, mod='cm'):
         return type(n, (), {'__module__': mod})
@@ -66,11 +72,13 @@ def universe():
     labels[id(twin)] = 'twin_a_m'
     labels[id(twin2)] = 'twin_e_ma'
     labels[id(twin3)] = 'twin_b_n_shared_strings'
+    labels[id(cm1)] = 'custom_methods_ab_n'
+    labels[id(cm2)] = 'custom_methods_derived_b_ma'
     for i, s in enumerate(SPECS):
         labels[id(s)] = 'spec%d' % i
     foreign = [3, 'a', object(), Named, len, sys, Named('a', 'm'), Named('zz', 'zz'), (), 1.5,
                Proxy()]
-    return IF, [twin, twin2, twin3], SPECS, foreign, labels, K
+    return IF, [twin, twin2, twin3, cm1, cm2], SPECS, foreign, labels, K
 
 
 def key(x):
